@@ -28,7 +28,7 @@ def run(cx, chk):
         "function of the crate mutates files; the early `return Ok(())` is control-dependent on equality of the destination's "
         "leading bytes with a value data-dependent on both the grammar text and the prefix, and the written bytes start with that "
         "same value; all fallible steps are `?`-propagated; directory mode calls the same routine for .ebnf entries and propagates.")
-    chk.assumptions = ["histories (stale prefix, CRC collisions, settings not part of the key) are outside this family's reach",
+    chk.assumptions = ["histories other than the shortened-prefix one (CRC collisions, settings not part of the key) are outside this family's reach",
                        "the optional rustfmt child process rewrites the destination after a successful write"]
     from .. import sem
     cg = cx.codegen
@@ -115,13 +115,24 @@ def run(cx, chk):
                     break
     # ---- key: the paths that return Ok without generating anything
     early = [l for l in leaves if l.ret is not None and l.ret[0] == "agg" and l.ret[2] == "Ok" and not any(is_gen(ev[0]) for ev in l.trace)]
-    texts = {ev[0] for l in leaves for ev in l.trace if ev[0][0] == "call" and last(ev[0][1]) == "read_to_string" and "fs::" in ev[0][1]}
+    # reads of the destination itself (same path term as the mutating call's) are the shortcut's side, not "the grammar text"
+    def _core(t_):
+        while t_[0] == "call" and last(t_[1]) in ("must_use", "deref", "as_ref", "borrow", "clone", "as_path", "as_os_str", "to_owned", "to_path_buf") and t_[2]:
+            t_ = t_[2][0]
+        return t_
+    dest_terms = {_core(ev[0][2][0]) for l in leaves for ev in l.trace if is_mut(ev[0]) and ev[0][2]}
+    is_dest_read = lambda t_: t_[0] == "call" and last(t_[1]) in ("read_to_string", "read") and "fs::" in t_[1] and t_[2] and _core(t_[2][0]) in dest_terms
+    texts = {ev[0] for l in leaves for ev in l.trace if ev[0][0] == "call" and last(ev[0][1]) == "read_to_string" and "fs::" in ev[0][1] and not is_dest_read(ev[0])}
     keyv = None
     if not early or len(texts) != 1:
         chk.violation("C18.key", "shape", "cannot identify the up-to-date shortcut (%d early Ok paths, %d reads of the grammar)" % (len(early), len(texts)), cx.site(b))
     else:
         TEXT = list(texts)[0]
         good_all = True
+        lossy = []
+        TRANSPARENT = ("must_use", "deref", "as_str", "as_ref", "borrow", "as_bytes", "as_slice", "clone", "to_owned", "to_string", "into_bytes", "into_iter", "bytes", "chars", "iter")
+        LOSSY = ("split_whitespace", "split_ascii_whitespace", "trim", "trim_end", "trim_start", "trim_matches", "trim_end_matches", "trim_start_matches", "lines", "to_lowercase",
+                 "to_uppercase", "to_ascii_lowercase", "to_ascii_uppercase", "split", "filter", "replace", "words", "skip", "skip_while", "take_while", "step_by")
         shown = []
         for l in early:
             good = False
@@ -137,13 +148,46 @@ def run(cx, chk):
                         if dep_text and dep_prefix and from_dest:
                             good = True
                             keyv = x
+                            for side in (x, y):
+                                c_ = side
+                                while c_[0] == "call" and c_[2] and last(c_[1]) in TRANSPARENT:
+                                    c_ = c_[2][0]
+                                if c_[0] == "call" and last(c_[1]) in LOSSY:
+                                    lossy.append(last(c_[1]))
             if not good:
                 good_all = False
+        if lossy:
+            chk.violation("C18.key", "lossy comparison", "the shortcut compares a *view* of the destination / of the expected header and prefix (%s), not the bytes: "
+                          "a change of the grammar's header or of the prefix that the view drops (amount of whitespace - also inside a string literal of the prefix -, "
+                          "case, trimmed ends) is taken for up to date and the stale destination survives a successful run" % ", ".join(sorted(set(lossy))), cx.site(b))
         if good_all:
             chk.ok("C18.key", "shortcut", {"skip_when": "destination bytes == f(grammar text, prefix)", "key": mir.show(keyv)[:200], "early_paths": len(early)})
         else:
             chk.violation("C18.key", "shortcut-condition", "the early `return Ok(())` is not control-dependent on equality between the destination's "
                           "bytes and a value that depends on both the grammar text and the prefix: %s" % shown[:2], cx.site(b))
+        # the compared span is delimited: the shortcut looks at the first len(key) bytes only, so a key that *ends* in caller-controlled
+        # text of free length (the prefix) with no length / digest of it earlier in the key cannot tell "prefix P" from "prefix P + more":
+        # after the prefix option is shortened to a proper prefix of the old one the old destination still starts with the new key
+        if good_all and keyv is not None:
+            from . import c11sem as _c11
+            tp = _c11.template_of(keyv)
+            fl = _c11.flatten(*tp) if tp else None
+            bounded = any(a_[0] == "call" and last(a_[1]) == "starts_with" for l in early for (a_, v_) in l.assume) or \
+                any(s_[0] == "call" and last(s_[1]) == "take" and len(s_[2]) == 2 and any(z[0] == "call" and last(z[1]) == "len" for z in walk(s_[2][1]))
+                    for l in early for (a_, v_) in l.assume for s_ in walk(a_))
+            if fl and bounded and fl[-1][0] == "ph":
+                is_pref = lambda t_: any(z[0] == "field" and z[2] == "prefix" for z in walk(t_))
+                last_is_prefix = is_pref(fl[-1][2]) and not any(z[0] == "call" and last(z[1]) not in ("deref", "as_str", "as_ref", "borrow", "clone", "to_owned", "to_string", "must_use")
+                                                                 for z in walk(fl[-1][2]))
+                earlier_dep = any(p_[0] == "ph" and is_pref(p_[2]) for p_ in fl[:-1])
+                if last_is_prefix and not earlier_dep:
+                    chk.violation("C18.key", "prefix not delimited",
+                                  "the shortcut compares only the first len(header + prefix) bytes of the destination and the key ends with the raw prefix text: "
+                                  "when the prefix option is changed to a proper prefix of the old one (e.g. to empty) the old destination still starts with the "
+                                  "new key, the run returns Ok and the stale prefix stays in the file (history: run with prefix \"use a;\\nuse b;\\n\", run with "
+                                  "prefix \"use a;\\n\")", cx.site(b))
+                else:
+                    chk.ok("C18.key", "prefix-delimited", {"last_component_is_raw_prefix": last_is_prefix, "earlier_component_depends_on_prefix": earlier_dep})
         # what is written starts with (contains, built first) the key
         if good_all and keyv is not None:
             key_core = keyv
@@ -205,7 +249,7 @@ def run(cx, chk):
     for l in leaves:
         for ev in l.trace:
             t = ev[0]
-            if not FALLIBLE(t):
+            if not FALLIBLE(t) or is_dest_read(t):
                 continue
             k = l.facts.get(mir.mk("discr", t))
             st_ = seen.setdefault(short(t[1]), {"examined": False, "dropped": False})
